@@ -29,11 +29,13 @@ def h_roundtrip(ctx, host, free):
     P = ctx.P
     t = {}
     for comp, n in free.items():
+        if comp == "nouser":
+            continue
         if comp in ("user", "password"):
             t[comp] = ctx.str(comp, n, lo=0, hi=127)
         else:
             t[comp] = ctx.str(comp, n, no_surrogates=True)
-    args = dict(scheme="http", host=HOSTS[host], user=t.get("user", "us"), password=t.get("password", "pw"),
+    args = dict(scheme="http", host=HOSTS[host], user=t.get("user", None if free.get("nouser") else "us"), password=t.get("password", "pw"),
                 path="/" + t["path"] if "path" in t else "/pa/th", fragment=t.get("fragment", "fr"))
     if "qkey" in t or "qval" in t:
         args["query"] = [(t.get("qkey", "k"), t.get("qval", "v")), ("z", "1")]
@@ -68,6 +70,18 @@ def h_roundtrip(ctx, host, free):
         ctx.check("idn-host-decoded", HOSTS["idn"] in text)
 
 
+def h_concrete_userinfo(ctx):
+    """NOT part of the solver claim (the NFKC screen is C code): non-ASCII userinfo whose NFKC form differs but contains no
+    delimiter must round-trip; concrete list"""
+    P = ctx.P
+    for ch in ("\u2122", "\u00b2", "\ufb01", "\uff21", "\u00e9", "\u4e2d", "\U0001f600", "\u2026"):
+        for kw in (dict(user="a" + ch), dict(user="u", password=ch + "b"), dict(password=ch)):
+            u = P.URL.build(scheme="http", host="example.com", path="/p", **kw)
+            r = call(lambda: P.URL(u.human_repr()))
+            ctx.check("non-ascii-userinfo-round-trips", r[0] == "ok" and r[1] == u, (hex(ord(ch)), sorted(kw), r[:2]))
+    ctx.observe("done", True)
+
+
 def families(tier):
     q = tier == "quick"
     fams = []
@@ -82,6 +96,10 @@ def families(tier):
                 fams.append(Family("%s/%s/n=%d" % (host, comp, n), h_roundtrip, dict(host=host, free={comp: n})))
     for comp in ("qkey", "qval", "fragment", "path", "password", "user"):
         fams.append(Family("reg/%s/n=0" % comp, h_roundtrip, dict(host="reg", free={comp: 0})))
+    fams.append(Family("reg/password-without-user/n=1", h_roundtrip, dict(host="reg", free={"password": 1, "nouser": 1})))
+    if not q:
+        fams.append(Family("reg/password-without-user/n=2", h_roundtrip, dict(host="v6", free={"password": 2, "nouser": 1})))
+    fams.append(Family("nfkc-unstable-userinfo-concrete", h_concrete_userinfo, {}))
     pairs = [("user", "password"), ("path", "fragment"), ("qkey", "qval"), ("path", "qkey"), ("password", "path")]
     for a, b in (pairs[1:2] if q else pairs):
         fams.append(Family("reg/%s+%s" % (a, b), h_roundtrip, dict(host="reg", free={a: 1, b: 1})))
